@@ -1,5 +1,5 @@
 //@ append src/crypto/src/encrypt.rs
-//@ native verif_oracle_sweep_enc "thorough-tier sanity: the executable transcription of the documented chunk stream agrees with the real encrypt_chunks (real AEAD) on every case with <= 3 plaintext bytes, chunk size 2, all read splits and every single read / write / flush fault position (12544 cases)"
+//@ native verif_oracle_sweep_enc "bounded stand-in / witness finder: the executable transcription of the documented chunk stream agrees with the real encrypt_chunks (real AEAD) on every case with <= 3 plaintext bytes, chunk size 2, all read splits and every single read / write / flush fault position (12544 cases)"
 //@ xharness-not-registered enc_chunks_case bounded "plaintext <= 3 bytes, chunk_size 2, <= 5 reads, one optional read fault and one optional write/flush fault; AEAD stubbed by a loop-free deterministic model with a 2-byte tag" unwind=10 stubs=1 replay=verif_replay_enc
 // Bounded stand-in + witness finder for encrypt_chunks on the REAL code.  The same `run_case` runs natively
 // (cargo test, real ChaCha20-Poly1305) to replay a witness: the oracle only uses crate primitives, so it is
@@ -176,11 +176,11 @@ pub(crate) mod verif_h_enc {
         for len in 0u8..4 { for split in 0u8..32 { for rf in 0u8..7 { for wf in 0u8..14 {
             let inp = [len, 0x11, 0x22, 0x33, split & 1, (split >> 1) & 1, (split >> 2) & 1, (split >> 3) & 1, (split >> 4) & 1,
                        if rf < 6 { rf } else { 7 }, if wf < 13 { wf } else { 15 }, 1];
-            let code = run_case(&inp, None);
+            let code = match std::panic::catch_unwind(|| run_case(&inp, None)) { Ok(c) => c, Err(_) => 99 };
             n += 1;
             if code != 0 { bad += 1; if first.is_none() { first = Some((inp, code)); } }
         }}}}
-        println!("VERIF_FINDING oracle-sweep cases={} disagreements={} first={:?}", n, bad, first);
+        println!("VERIF_ORACLE verif_oracle_sweep_enc cases={} disagreements={} first={:?}", n, bad, first.map(|(i, c)| format!("input bytes {:?} (len, data x3, read sizes x5, read fault at, write fault at, partial) violates check {} (1-3 fault-free result/length, 4-7 fault reporting, 8-9 prefix of the documented stream, 99 panic); replay: VERIF_WITNESS={} cargo test verif_replay_enc", i, c, i.iter().map(|b| b.to_string()).collect::<Vec<_>>().join(","))));
         assert!(bad == 0, "real encrypt_chunks disagrees with the documented chunk stream on {} of {} cases, first {:?}", bad, n, first);
     }
 
